@@ -183,6 +183,19 @@ func (p *Printer) emit(t *Term) {
 		if p.Enc == EncInt && t.Sort.K == KInt {
 			fmt.Fprintf(p.out, "(assert (and (<= %s %s) (<= %s %s)))\n", bigStr(t.Lo), t.Name, t.Name, bigStr(t.Hi))
 		}
+		if p.Enc == EncBV && t.Sort.K == KInt {
+			tl, th := typeRange(t.Sort)
+			if t.Lo.Cmp(tl) > 0 || t.Hi.Cmp(th) < 0 {
+				le := "bvule"
+				if t.Sort.Signed {
+					le = "bvsle"
+				}
+				w := uint(t.Sort.W)
+				lo := new(big.Int).Mod(t.Lo, pow2(w))
+				hi := new(big.Int).Mod(t.Hi, pow2(w))
+				fmt.Fprintf(p.out, "(assert (and (%s (_ bv%s %d) %s) (%s %s (_ bv%s %d))))\n", le, lo, w, t.Name, le, t.Name, hi, w)
+			}
+		}
 		return
 	}
 	if t.Op == OUF {
